@@ -1125,8 +1125,11 @@ def check_model(ctx: Ctx, i, r: Rng, spec, verdict, lines: dict, n_cases: int):
     if b.m_all is not None and spec["variant"] == 0:
         V = len(spec["variants"])
         pcase = gen_sim_case(r.fork("plancase"), spec)
-        for (n_, M_, D_) in [(V, V, 1), (V, V, V), (V, V, 2 if V != 2 else 3), (2, 1, 2), (2, 1, 1)]:
-            lines["plan"].append((dict(tag, plan=[n_, M_, D_], case=pcase), f"plan {n_} {M_} {D_}", impl_variant_plan(b, pcase, n_, M_, D_)))
+        for (n_, M_, D_) in r.fork("planpick").sample([(V, V, 1), (V, V, V), (V, V, 2 if V != 2 else 3), (2, 1, 2), (2, 1, 1)], 2):
+            got = impl_variant_plan(b, pcase, n_, M_, D_)
+            if got is not None:
+                lines["plan"].append((dict(tag, plan=[n_, M_, D_], case=pcase), f"plan {n_} {M_} {D_}", got))
+                ctx.nontriv(("plan", n_, M_, D_, got))
     if spec["linear"] and b.m_all is None:
         try:
             it = memo_stream_item(b, r.fork("memo"), tag)
@@ -1367,7 +1370,8 @@ def impl_variant_plan(b: Built, case, n, M, D) -> str:
                 vals = np.exp(vals)
             db[xname(j)] = ir.Series(start=t0 - L, values=vals)
         for k in range(spec["ns"]):
-            db[ename(k)] = ir.Series(start=t0, values=np.array(case["u"][k], dtype=float))
+            uu = np.array([[case["u"][k][t] + (0.25 * c if t == 0 else 0.0) for c in cols] for t in range(nper)], dtype=float)
+            db[ename(k)] = ir.Series(start=t0, values=uu)
             db["ant_" + ename(k)] = ir.Series(start=t0, values=np.array(case["v"][k], dtype=float))
         for k in range(spec["nw"]):
             db[wname(k)] = ir.Series(start=t0, values=np.array(case["w"][k], dtype=float))
@@ -1390,6 +1394,8 @@ def impl_variant_plan(b: Built, case, n, M, D) -> str:
             col.append(a[:, k] if a.shape[1] > k else np.full(a.shape[0], np.nan))
         col = np.array(col)
         hits = [key for key, rv in ref.items() if np.all(np.isfinite(col)) and np.max(np.abs(col - rv)) <= 1e-9 * (1 + np.max(np.abs(rv)))]
+        if len(hits) > 1:
+            return None      # the output does not identify the pair (e.g. a model without lags and shocks): nothing to compare
         plan.append(f"{hits[0][0]}:{hits[0][1]}" if len(hits) == 1 else "?")
     return ",".join(plan)
 
